@@ -18,7 +18,7 @@ pub fn property() -> Property {
     Property {
         id: "C15",
         level: "exploration",
-        rule: "(well_formed) command ASTs drawn from the UCI grammar (all 11 commands; go with any subset and order of its 12 parameters; position startpos|fen with 0..30 moves; multi-word names / values / codes) rendered with random runs of spaces and compared with an independently built expected UciCommand; (moves) ALL 64x64x7 move texts round-trip, complete enumeration; (ill_formed) one fault per case from 9 classes must give Err; (total) arbitrary Unicode strings and token-level mutations of valid lines never panic. Non-trivial = distinct line text with >= 2 go parameters or a move list or multi-word operands (well-formed), every faulty / mutated line (others)",
+        rule: "(well_formed) command ASTs drawn from the UCI grammar (all 11 commands; go with any subset and order of its 12 parameters; position startpos|fen with 0..30 and, in one case of 13, 200..700 moves; line terminator none / LF / CR LF / CR left on the line; multi-word names / values / codes) rendered with random runs of spaces and compared with an independently built expected UciCommand; (moves) ALL 64x64x7 move texts round-trip, complete enumeration; (ill_formed) one fault per case from 9 classes must give Err; (total) arbitrary Unicode strings and token-level mutations of valid lines never panic. Non-trivial = distinct line text with >= 2 go parameters or a move list or multi-word operands (well-formed), every faulty / mutated line (others)",
         assumptions: &["tokens are separated by spaces only (the parser splits on ' '); trailing extra tokens after complete simple commands are accepted by the crate's own tests and are not generated as faults"],
         parts: vec![
             Part {
@@ -119,6 +119,10 @@ pub struct Ast {
     pub spaces: Vec<u8>,
     /// explicitly write "moves" even when the list is empty
     pub moves_keyword: bool,
+    /// line terminator left on the line (what read_line() delivers; "'\\n' can be 0x0d or 0x0a0d or any combination
+    /// depending on your OS", UCI specification): 0 none, 1 LF, 2 CR LF, 3 CR
+    #[serde(default)]
+    pub eol: u8,
 }
 
 const KEYWORDS: [&str; 30] = ["name", "value", "code", "later", "moves", "fen", "startpos", "on", "off", "searchmoves", "ponder", "wtime", "btime", "winc", "binc", "movestogo", "depth", "nodes", "mate", "movetime", "infinite", "uci", "go", "stop", "quit", "debug", "position", "register", "setoption", "isready"];
@@ -209,7 +213,7 @@ fn cmd_strategy() -> impl Strategy<Value = Cmd> {
         1 => Just(Cmd::RegisterLater),
         2 => (words(3), words(3)).prop_map(|(name, code)| Cmd::Register { name, code }),
         1 => Just(Cmd::UciNewGame),
-        5 => (fen_strategy(), proptest::collection::vec(move_text(), 0..30)).prop_map(|(fen, moves)| Cmd::Position { fen, moves }),
+        5 => (fen_strategy(), prop_oneof![12 => proptest::collection::vec(move_text(), 0..30), 1 => proptest::collection::vec(move_text(), 200..700)]).prop_map(|(fen, moves)| Cmd::Position { fen, moves }),
         8 => go_strategy().prop_map(Cmd::Go),
         1 => Just(Cmd::Stop),
         1 => Just(Cmd::PonderHit),
@@ -218,9 +222,9 @@ fn cmd_strategy() -> impl Strategy<Value = Cmd> {
 }
 
 fn ast_strategy() -> impl Strategy<Value = Ast> {
-    (cmd_strategy(), proptest::collection::vec(prop_oneof![3 => Just(1u8), 1 => 1..5u8], 1..6), 0..3u8, any::<bool>()).prop_map(|(cmd, mut spaces, lead, moves_keyword)| {
+    (cmd_strategy(), proptest::collection::vec(prop_oneof![3 => Just(1u8), 1 => 1..5u8], 1..6), 0..3u8, any::<bool>(), prop_oneof![3 => Just(0u8), 1 => 1..4u8]).prop_map(|(cmd, mut spaces, lead, moves_keyword, eol)| {
         spaces.insert(0, lead);
-        Ast { cmd, spaces, moves_keyword }
+        Ast { cmd, spaces, moves_keyword, eol }
     })
 }
 
@@ -307,7 +311,9 @@ pub fn render_tokens(t: &[String], spaces: &[u8]) -> String {
 }
 
 pub fn render(a: &Ast) -> String {
-    render_tokens(&tokens(a), &a.spaces)
+    let mut l = render_tokens(&tokens(a), &a.spaces);
+    l.push_str(["", "\n", "\r\n", "\r"][(a.eol % 4) as usize]);
+    l
 }
 
 fn expect_move(text: &str) -> Result<UciMove, String> {
@@ -402,6 +408,14 @@ pub fn check_well_formed(a: &Ast, ctx: &mut Ctx) -> Result<(), String> {
         _ => ("simple", false),
     };
     ctx.class(class);
+    if a.eol % 4 != 0 {
+        ctx.class(["", "line_ends_with_lf", "line_ends_with_crlf", "line_ends_with_cr"][(a.eol % 4) as usize]);
+    }
+    if let Cmd::Position { moves, .. } = &a.cmd {
+        if moves.len() > 256 {
+            ctx.class("position_with_more_than_256_moves");
+        }
+    }
     if let Cmd::Go(p) = &a.cmd {
         ctx.class(&format!("go_with_{}_params", p.len()));
     }
@@ -474,7 +488,14 @@ fn faulty(a: &Ast, class: u32, x: u32, y: u32) -> Faulty {
             // unknown / capitalised / foreign first word
             let mut t = tokens(a);
             let first = t[0].clone();
-            t[0] = match x % 5 {
+            if x % 7 >= 5 {
+                // a word that is no command IN FRONT of a complete well-formed line: the first word decides
+                let junk = ["xyzzy", "joho", "please", "info", "bestmove", "Go", "quit!", "#", "1"][pick(9, y)].to_string();
+                t.insert(0, junk);
+            }
+            let first = t[0].clone();
+            t[0] = match x % 7 {
+                5 | 6 => first.clone(),
                 0 => first.to_uppercase(),
                 1 => {
                     let mut c = first.chars();
